@@ -164,3 +164,11 @@ META["C13"] = dict(
                 "log checked for balance and order, goroutines and sockets counted afterwards."),
     level_note=("Trusted: schedules are sampled, not controlled - a violation that needs one specific interleaving is found with a probability per case, not with certainty."),
 )
+
+META["C18"] = dict(
+    design_ref="DESIGN.md section 4, C18",
+    technique="property-based testing (rapid): generated size-boundary packets through every write entry point of a live client/server pair, wire taps on UDP sockets and (above TLS) control connections as the oracle; generated start-up configurations",
+    level_text=("Exploration: generated maxima x profiles x transports x entry points x packet shapes at the size boundary; sizes observed on the wire "
+                "and return values compared with the limit."),
+    level_note=("Trusted: the taps see every datagram and frame the library writes (ListenPacket / DialContext hooks); multicast excluded."),
+)
